@@ -22,7 +22,10 @@ class _SpecKeys(object):
 SPEC_KEYS = _SpecKeys()
 INTERNAL_KEYS = []
 
-RULE = ('sequences of <=30 operations on a pool of 4 DmxBuffers in raw storage (construct / copy-construct / '
+RULE = ('sequences of <=30 operations on 4 DmxBuffers in raw storage plus the <=4 elements of a std::vector<DmxBuffer> '
+        '(every operation may target either; whole-buffer C++ expressions: x = DmxBuffer(y), x = by-value-return(y), std::swap, '
+        'vector push_back(copy / temporary) / insert / erase / resize / reserve-reallocation / pop_back / std::reverse); '
+        '(construct / copy-construct / '
         'construct-from-data / construct-from-string / destroy / assign / Set(buffer) / Set(ptr,len) / Set(string) / '
         'SetFromString(arbitrary text: empty items, leading zeros, white space, signs, stop characters, values beyond '
         'byte / int / long) / Set and SetRange with a pointer into another buffer (GetRaw()+k) / '
@@ -36,7 +39,12 @@ ASSUMPTIONS = ['operator new does not fail',
                'a caller passing (data, length) owns at least the bytes the call reads (min(length,512) resp. '
                'min(length,512-offset)); the harness passes exact-size heap arrays so ASan sees any over-read',
                'single-threaded use (the class is documented as not thread safe)']
-TRUSTED = ['modelled rather than verified: every method of common/utils/DmxBuffer.cpp except operator<< ; '
+TRUSTED = ['whole-buffer C++ expressions (assignment from temporaries and by-value returns, std::swap, std::vector element '
+           'shuffles) are executed as written by the harness and as the sequence of copy constructions / copy assignments / '
+           'destructions they mean for a value type by the model driver (props/C02/driver.ml `expand`, mirroring libstdc++ 12); '
+           'on a class without move members the two coincide down to reference counts, with move members only the '
+           'API-level observables are required to agree (internal keys then differ and are reported as internal-only)',
+           'modelled rather than verified: every method of common/utils/DmxBuffer.cpp except operator<< ; '
            'SetFromString for every text, with glibc atoi/strtol semantics (isspace skip, one sign, digits to the first other '
            'character, LONG_MIN/LONG_MAX saturation, then int->uint8_t truncation); whether out-of-range items SHOULD be '
            'accepted is finding C20-dmx-atoi-truncation, not judged here; raw-pointer arguments only into a DIFFERENT buffer '
@@ -100,8 +108,20 @@ def gen_text(rng, ntok):
 class Sim(object):
     """sizes only (None = uninitialised), to aim offsets/lengths at the boundaries of the target"""
     def __init__(self):
-        self.live = [False] * 4
-        self.val = [None] * 4
+        # positions 0..3: pool objects; 4..7: elements of the std::vector<DmxBuffer> (live iff index-4 < vsize)
+        self.live = [False] * 8
+        self.val = [None] * 8
+        self.vsize = 0
+
+    def vset(self, vals):
+        """the vector now holds these values"""
+        self.vsize = len(vals)
+        for k in range(4):
+            self.live[4 + k] = k < len(vals)
+            self.val[4 + k] = vals[k] if k < len(vals) else None
+
+    def vvals(self):
+        return [self.val[4 + k] for k in range(self.vsize)]
 
     def size(self, i):
         return self.val[i] or 0
@@ -134,7 +154,7 @@ def gen_case(rng, big, nops):
         return rng.choices(c, w)[0]
 
     def live_idx():
-        return [i for i in range(4) if sim.live[i]]
+        return [i for i in range(8) if sim.live[i]]
 
     def dead_idx():
         return [i for i in range(4) if not sim.live[i]]
@@ -143,7 +163,7 @@ def gen_case(rng, big, nops):
         l = live_idx() if prefer_live else dead_idx()
         if l and rng.random() < 0.97:
             return rng.choice(l)
-        return rng.randrange(4)
+        return rng.randrange(8 if prefer_live else 4)
 
     for step in range(nops):
         lv, dd = live_idx(), dead_idx()
@@ -174,15 +194,70 @@ def gen_case(rng, big, nops):
                 if not sim.live[i]:
                     sim.live[i], sim.val[i] = True, None
             continue
-        if r < 0.24:
-            i = any_idx()
+        if r < 0.22:
+            pl = [x for x in range(4) if sim.live[x]]
+            i = rng.choice(pl) if pl and rng.random() < 0.97 else rng.randrange(4)
             ops.append('del,%d' % i)
             if sim.live[i]:
                 sim.live[i], sim.val[i] = False, None
             continue
-        kind = rng.choices(['asg', 'setb', 'htp', 'setp', 'sets', 'sft', 'srv', 'sr', 'sc', 'bo', 'rst', 'cpy', 'new', 'setraw', 'srraw'],
-                           [14, 12, 10, 7, 3, 5, 8, 9, 10, 3, 4, 1, 1, 5, 7])[0]
+        kind = rng.choices(['asg', 'setb', 'htp', 'setp', 'sets', 'sft', 'srv', 'sr', 'sc', 'bo', 'rst', 'cpy', 'new', 'setraw', 'srraw',
+                            'asgt', 'asgr', 'swap', 'vpush', 'vpusht', 'vpop', 'verase', 'vins', 'vresize', 'vrealloc', 'vrev'],
+                           [12, 10, 10, 7, 3, 5, 8, 9, 12, 3, 4, 1, 1, 5, 7,
+                            7, 5, 8, 5, 3, 1, 4, 4, 1, 2, 2])[0]
         i = any_idx()
+        # ---- expressions that copy / assign / move whole buffers, and the vector of buffers
+        if kind in ('asgt', 'asgr', 'swap'):
+            j = i if rng.random() < 0.12 else any_idx()
+            ops.append('%s,%d,%d' % (kind, i, j))
+            if sim.live[i] and sim.live[j]:
+                if kind == 'swap':
+                    sim.val[i], sim.val[j] = sim.val[j], sim.val[i]
+                else:
+                    sim.val[i] = sim.val[j]
+            continue
+        if kind in ('vpush', 'vpusht'):
+            j = any_idx()
+            ops.append('%s,%d' % (kind, j))
+            if sim.vsize < 4 and sim.live[j]:
+                sim.vset(sim.vvals() + [sim.val[j]])
+            continue
+        if kind == 'vpop':
+            ops.append('vpop')
+            if sim.vsize > 0:
+                sim.vset(sim.vvals()[:-1])
+            continue
+        if kind == 'verase':
+            k = rng.randrange(sim.vsize) if sim.vsize and rng.random() < 0.95 else rng.randrange(5)
+            ops.append('verase,%d' % k)
+            if k < sim.vsize:
+                v = sim.vvals()
+                del v[k]
+                sim.vset(v)
+            continue
+        if kind == 'vins':
+            k = rng.randrange(sim.vsize + 1) if rng.random() < 0.95 else rng.randrange(6)
+            j = any_idx()
+            ops.append('vins,%d,%d' % (k, j))
+            if sim.vsize < 4 and k <= sim.vsize and sim.live[j]:
+                v = sim.vvals()
+                v.insert(k, sim.val[j])
+                sim.vset(v)
+            continue
+        if kind == 'vresize':
+            n = rng.choice([0, 1, 2, 3, 4, 4, 5])
+            ops.append('vresize,%d' % n)
+            if n <= 4:
+                v = sim.vvals()
+                sim.vset(v[:n] + [None] * (n - len(v)))
+            continue
+        if kind == 'vrealloc':
+            ops.append('vrealloc')
+            continue
+        if kind == 'vrev':
+            ops.append('vrev')
+            sim.vset(sim.vvals()[::-1])
+            continue
         if kind in ('asg', 'setb', 'htp'):
             j = i if rng.random() < 0.22 else any_idx()
             ops.append('%s,%d,%d' % (kind, i, j))
@@ -307,7 +382,9 @@ def gen_cases(rng, tier):
            'setp,0,0102,2', 'setp,0,N,0', 'sets,0,-', 'sft,0,-', 'sft,0,31302c3230', 'sft,0,2c2c35', 'setraw,0,2,1,2', 'srraw,0,1,2,0,3',
            'srraw,2,0,0,0,3', 'setraw,0,1,0,3', 'srraw,0,3,1,1,2', 'srraw,1,0,0,0,3', 'srv,0,1,9,2', 'srv,0,4,9,1',
            'sr,0,3,0708,2', 'sr,0,4,07,1', 'sc,0,3,9', 'sc,0,4,9', 'sc,0,511,1', 'bo,0', 'rst,0', 'del,0', 'del,2',
-           'setb,0,1', 'htp,0,1', 'asg,0,1', 'setb,1,0', 'htp,1,0', 'asg,1,0']
+           'setb,0,1', 'htp,0,1', 'asg,0,1', 'setb,1,0', 'htp,1,0', 'asg,1,0',
+           'asgt,0,2', 'asgt,2,0', 'asgr,0,2', 'asgr,2,0', 'asgt,0,0', 'asgt,0,1', 'asgr,1,0', 'swap,0,2', 'swap,0,1', 'swap,0,0',
+           'swap,2,0']
     for pn, p in prep.items():
         for sn, s in second.items():
             if sn == 'same' and 'new,3' in p:
@@ -319,6 +396,24 @@ def gen_cases(rng, tier):
                     if quick and rng.random() < 0.5:
                         continue
                     yield ' '.join(p + s + [m, m2, 'sc,1,1,200', 'sc,2,0,1'])
+    # directed: the vector of buffers.  Every element shuffle (erase / insert / reverse / reallocation / resize)
+    # between elements that are private, shared with a pool object or shared with each other, then an
+    # in-place write into each position that received a value and a look at everybody else
+    vprep = ['newd,0,0a0b0c0d,4', 'newd,1,0909,2']
+    fills = [['vpush,1', 'vpush,0', 'vpush,0'], ['vpusht,0', 'vpush,1', 'vpusht,0'], ['vpush,0', 'vpush,0', 'vpush,1', 'vpush,1'],
+             ['vpush,1', 'vresize,3', 'vpush,0'], ['vpush,0', 'sc,4,0,1', 'vpush,4', 'vpush,1']]
+    shuffles = [['verase,0'], ['verase,1'], ['vins,0,1'], ['vins,1,0'], ['vins,1,4'], ['vrev'], ['vrealloc'], ['vpop', 'vins,0,0'],
+                ['swap,4,5'], ['swap,4,1'], ['asgt,4,5'], ['asgr,5,0'], ['verase,0', 'verase,0'], ['vrealloc', 'verase,0'],
+                ['vresize,1', 'vresize,4'], ['asgt,1,4'], ['swap,0,5']]
+    writes = [['sc,4,0,77', 'sc,5,1,78'], ['htp,4,1', 'srv,5,1,50,2'], ['sr,4,0,c8c9,2', 'sc,6,0,5'], ['sc,0,0,200', 'sc,1,0,201'],
+              ['sfs4'], ['bo,5', 'rst,4']]
+    for fl in fills:
+        for sh in shuffles:
+            for wr in writes:
+                if quick and rng.random() < 0.5:
+                    continue
+                wr = ['sft,4,372c38'] if wr == ['sfs4'] else wr
+                yield ' '.join(vprep + fl + sh + wr + ['sc,0,3,9', 'verase,0', 'vresize,0'])
     n = 2600 if quick else 100000
     for c in range(n):
         big = rng.random() < (0.12 if quick else 0.2)
@@ -345,7 +440,10 @@ LEVEL_TEXT = ('Coq theorems, for every pool size and every finite sequence of Dm
               '(string constructor, operator!=, SetFromString on arbitrary text, pointers into another buffer obtained from '
               'GetRaw()); proved in addition: per-operation return values along whole histories, invisibility of '
               'uninitialised memory, every stored slot is a byte, ToString->SetFromString round trip after every history, '
-              'the documented text format, and that destroying every buffer after any history frees every block.')
+              'the documented text format, and that destroying every buffer after any history frees every block.  Wave 6: '
+              'assignment from a temporary / by-value return, std::swap and container erase are proved to have value semantics '
+              'from every aliasing state (c02_assign_from_temporary(_then_write), c02_swap, c02_container_erase) and the harness '
+              'exercises these C++ expressions and a std::vector<DmxBuffer> directly.')
 LEVEL_NOTE = ('Trusted: Coq kernel, extraction (ExtrOcamlBasic), OCaml/C++ glue, and that the hand-written model equals '
               'common/utils/DmxBuffer.cpp: validated by differential testing after every operation (API observables '
               'and refcount/cow/sharing/heap-block internals, ASan+UBSan build of the working tree), not proved.  '
